@@ -49,6 +49,12 @@ CHECKS = {
  "C16": dict(engine="clock", technique="model-based property testing on a virtual clock: interval driven by a harness-owned mock Nurse+Timer (injected spawn failures, generated expiry/disposal orders) against a per-subscription tick model",
              text="The executor is supplied through interval's public generic parameter; the harness owns time and polling. Oracle: back-to-back sleep(period) requests, exactly one Data(k) per completed sleep counting from 0 per subscription, nothing from the first tick at which the disposal is visible, the task finishes at that wake-up without another sleep (no leaked timer), and a failed spawn yields exactly one Error carrying the injected NurseErr.", ref="DESIGN.md §4 C16",
              note="Trusted base: the mock executor (tasks polled only by the harness, sleep pending until fired, no time passes during a poll), probes, oracle code. Real-timer drift and a tick overtaking the greeting on a preemptive executor are not explored."),
+ "C18": dict(engine="sched", technique="schedule enumeration and random schedule generation under an owned lock-step thread scheduler (hooked shared-state accesses), with exactly-once counting oracles",
+             text="merge!/combine! with 2-3 member threads on real OS threads; exactly one thread runs between yield points (every hooked AtomicBool/AtomicUsize/ArcSwap access of merge.rs/combine.rs plus harness points). Depth-first enumeration is complete for the 2-thread x 1-datum shapes and preemption-bounded for larger ones (per_shape in the evidence says which), followed by proptest-generated random schedules that shrink towards fewer preemptions. Oracle: one greeting, every datum once and in per-member order (merge), complete tuples of values actually sent with the own slot current (combine), no panic, one terminal, completion after every data delivery has returned.", ref="DESIGN.md §4 C18",
+             note="Trusted base: the cfg-guarded hook stand-ins (feature `verif`), the lock-step scheduler, the member/probe actors and the oracle. Interleavings are sequentially consistent at the granularity of hooked accesses; weak-memory reorderings are out of reach. A stuck session is reported as inconclusive (exit 2)."),
+ "C19": dict(engine="sched", technique="schedule enumeration and random schedule generation under an owned lock-step thread scheduler, with counting oracles at the sink and at a transparent tap above take",
+             text="take(n), n in 1..3, fed by merge! of 2-3 member threads or directly by one source delivering from 2-3 threads; same scheduler and generators as C18 with take.rs hooked. Oracle: at most n data at the sink, exactly one Terminate to the sink and exactly one termination on take's upstream edge once n were delivered, no member terminated twice.", ref="DESIGN.md §4 C19",
+             note="Trusted base as for C18."),
 }
 
 def main():
@@ -86,6 +92,8 @@ def main():
              "kind_free_text": "scenario interpreter: real crate operators between harness-owned puppet sources and probe sinks; proptest-generated byte strings decoded into scenarios; pure oracles over the recorded history"},
             {"name": "clock", "path": "harness/src/clock.rs", "serves_properties": ["C16", "C01", "C02", "C03", "C13", "C17"],
              "kind_free_text": "virtual-time executor (mock Nurse + Timer) driving the crate's interval; also feeds one case in eight of C01/C02/C03/C13/C17"},
+            {"name": "sched", "path": "harness/src/sched.rs", "serves_properties": ["C18", "C19"],
+             "kind_free_text": "lock-step scheduler over real OS threads driven through the crate's cfg-guarded hook; depth-first schedule enumeration plus proptest-generated random schedules"},
             {"name": "pipeline", "path": "harness/src/pipeline.rs", "serves_properties": [p for p in ids if CHECKS.get(p, {}).get("engine") == "pipeline"],
              "kind_free_text": "grammar-generated iterable programs run through the real crate (built with pipe!) and through std::iter as the reference"},
         ],
